@@ -111,7 +111,7 @@ XML256TableTranscoder::transcodeTo( const   XMLCh* const    srcData
         //  Get the next src char out to a temp, then do a binary search
         //  of the 'to' table for this entry.
         //
-        if ((nextOut = xlatOneTo(*srcPtr))!=0)
+        if (findOneTo(*srcPtr, nextOut))
         {
             *outPtr++ = nextOut;
             srcPtr++;
@@ -155,7 +155,8 @@ bool XML256TableTranscoder::canTranscodeTo(const unsigned int toCheck)
     if (toCheck > 0xFFFF)
         return false;
 
-    return (xlatOneTo(XMLCh(toCheck)) != 0);
+    XMLByte dummy;
+    return findOneTo(XMLCh(toCheck), dummy);
 }
 
 
@@ -183,6 +184,13 @@ XML256TableTranscoder(  const   XMLCh* const                     encodingName
 // ---------------------------------------------------------------------------
 XMLByte XML256TableTranscoder::xlatOneTo(const XMLCh toXlat) const
 {
+    // Zero means 'not found' here, which is ambiguous for U+0000
+    XMLByte retVal;
+    return findOneTo(toXlat, retVal) ? retVal : 0;
+}
+
+bool XML256TableTranscoder::findOneTo(const XMLCh toXlat, XMLByte& toFill) const
+{
     XMLSize_t lowOfs = 0;
     XMLSize_t hiOfs = fToSize - 1;
     do
@@ -205,7 +213,8 @@ XMLByte XML256TableTranscoder::xlatOneTo(const XMLCh toXlat) const
         }
          else
         {
-            return fToTable[midOfs].extCh;
+            toFill = fToTable[midOfs].extCh;
+            return true;
         }
     }   while (lowOfs + 1 < hiOfs);
 
@@ -213,10 +222,18 @@ XMLByte XML256TableTranscoder::xlatOneTo(const XMLCh toXlat) const
     // last item in the table may never be found.
         if (toXlat == fToTable[hiOfs].intCh)
         {
-            return fToTable[hiOfs].extCh;
+            toFill = fToTable[hiOfs].extCh;
+            return true;
         }
 
-    return 0;
+    // Likewise the low end, for the first item in the table
+        if (toXlat == fToTable[lowOfs].intCh)
+        {
+            toFill = fToTable[lowOfs].extCh;
+            return true;
+        }
+
+    return false;
 }
 
 }
